@@ -45,6 +45,14 @@ claimed = {
    text="The same reference-encoded wire bytes (templates interleaving known and unknown IANA/enterprise elements of fixed and variable length, records of symbolic values) are decoded by real collectors in strict, keep and drop mode and, reduced to the known fields, by a fourth: rejection, byte-exact preservation, exact omission and independence of known values are SMT obligations over all values.",
    note="Bounds: 1..2 (quick) / 1..3 (thorough) template positions, unknown lengths {1,2,5,variable(0,3,255)}, 1..2 records.",
    tech="symbolic execution of Go SSA + SMT, three-mode differential"),
+ "C05": dict(cat="model_checking", sec="DESIGN.md section 4, C05",
+   text="Inductive step of the real aggregation code (addOrUpdateRecordInMap, aggregateRecords, addFieldsFor*, updateFlowEndSecondsFromNodes, correlateRecords) from an ARBITRARY aggregated flow: every counter, per-node end time, delta and throughput field of the pre-state is a solver variable (written through the record's own setters), one symbolic record arrives from the source node, the destination node or an uncorrelated stream, and the post-state is compared field by field with the statement (latest end, node totals, node delta sums, 8 x growth / time growth with 64-bit symbolic division, common fields following the strictly latest reporter, other node untouched). Plus reset from an arbitrary state and bounded multi-flow histories for one-flow-per-key and non-interference.",
+   note="Exporter contract and a small representation invariant are assumed (listed in the evidence); ties and overflow are left open as in the statement. 5-tuples concrete; httpVals JSON merging not configured. Histories: 2 (quick) / 3 (thorough) records.",
+   tech="symbolic execution of Go SSA + SMT, one inductive step over a fully symbolic aggregate state"),
+ "C06": dict(cat="model_checking", sec="DESIGN.md section 4, C06",
+   text="One inductive step of the real expiry machinery (addOrUpdateRecordInMap, ForAllExpiredFlowRecordsDo, GetExpiryFromExpirePriorityQueue, TimeToExpirePriorityQueue and container/heap from SSA) from an arbitrary valid (map, heap) state of up to N flows whose deadlines, readiness and retry counts are solver variables: callbacks never early, only for ready flows, earliest first, once; inactive expiry removes, active expiry re-arms; after any scan - including one whose callback failed on any subset of keys - every held flow has exactly one scheduled entry, the heap order and back pointers hold, and the advertised expiry matches the earliest deadline.",
+   note="Bounds: 0..2 (quick) / 0..3 (thorough) flows, one operation. Virtual time by deadline placement (frozen clock); a deadline exactly equal to the scan instant is excluded (not replayable; statement leaves it open).",
+   tech="symbolic execution of Go SSA + SMT, inductive step over (map, heap) with symbolic deadlines and failing callbacks"),
 }
 
 NA = {
